@@ -1997,8 +1997,8 @@ class Stream(AbstractStream):
         new._thermo = self._thermo
         new._imol = self._imol
         new._thermal_condition = self._thermal_condition
-        new._property_cache = self._property_cache
-        new._property_cache_key = self._property_cache_key
+        new._property_cache = {}
+        new._property_cache_key = None, None
         new.equations = self.equations
         new.characterization_factors = self.characterization_factors
         return new
